@@ -252,6 +252,27 @@ def _d2(chk, fb, fns):
                     role = "loop bound"
             if par is not None and is_call(par) and par["callee"]["name"] in ("operator[]", "at") and par.get("args") and par["args"][0] == x["id"]:
                 role = "index"
+            use = e
+            if role is None and par is not None and par["k"] == "DeclStmt":
+                # 'const size_t last = v.size() - 1;' and the local then bounds a loop or indexes v: the wrap happens here, the harm
+                # where the local is used; a guard anywhere in front of that use counts
+                inits_ = local_inits(f)
+                for d_ in par["decls"]:
+                    if d_.get("init") is not None and f.contains(d_["init"], e) and strip(d_["init"]) is strip(x) and d_["id"] in inits_ and "unsigned" in (d_.get("ty") or "").replace("size_t", "unsigned").replace("std::size_t", "unsigned"):
+                        for r_ in f.all_nodes():
+                            if r_["k"] != "DeclRefExpr" or r_["decl"]["id"] != d_["id"]:
+                                continue
+                            p2, x2 = f.parent.get(r_["id"]), r_
+                            while p2 is not None and p2["k"] in ("ImplicitCastExpr", "ParenExpr"):
+                                x2, p2 = p2, f.parent.get(p2["id"])
+                            if p2 is not None and p2["k"] == "BinaryOperator" and p2["op"] in ("<", "<=", "!=") and kids(p2)[1] is x2:
+                                lp2 = f.enclosing(p2, ("ForStmt", "WhileStmt"))
+                                if lp2 is not None and "cond" in lp2 and f.contains(f.nodes[lp2["cond"]], p2):
+                                    role, use, par = "loop bound", r_, p2
+                                    break
+                            if p2 is not None and is_call(p2) and p2["callee"]["name"] in ("operator[]", "at") and p2.get("args") and p2["args"][0] == x2["id"] and "obj" in p2 and render(f.obj(p2)) == ctext:
+                                role, use = "index", r_
+                                break
             if role is None:
                 continue
             n += 1
@@ -278,7 +299,7 @@ def _d2(chk, fb, fns):
                     if m and tr is True:
                         return True
                 return False
-            ok, path = e1.guarded_by(cfg, cfg.stmt_block(e), est)
+            ok, path = e1.guarded_by(cfg, cfg.stmt_block(use), est)
             caller_controlled = (root and root[0] == "v" and any(p["id"] == root[1] for p in f.params)) or (root and root[0] == "f" and root[1] in MAY_BE_EMPTY_MEMBERS)
             # a guard in front does not cover a later re-assignment of the string from parts that may all be empty
             reass0 = _possibly_empty_reassignment(f, cfg, cont, e, est) if role == "index" else None
